@@ -35,7 +35,7 @@ def make_machine(torchsde, property_id):
             self.order = []
             self.last_end = None
 
-        @initialize(cfg=history.configs(wrappers=("interval", "interval", "interval", "reverse", "tree", "path")))
+        @initialize(cfg=history.configs(wrappers=("interval", "interval", "interval", "reverse", "reverse2", "tree", "path")))
         def setup(self, cfg):
             self.cfg = cfg
             self.bm, self.interval, self.meta = history.build(cfg, torchsde, torch)
